@@ -320,9 +320,14 @@ public:
   /// or dequeue() operations will be woken up.
   void close()
   {
-    if (_closed.exchange(true, std::memory_order_acq_rel))
     {
-      return; // Already closed
+      // Set the flag under the mutex: a thread that has evaluated its wait
+      // predicate but is not yet blocked must not miss the notification.
+      std::lock_guard<std::mutex> lock(_mutex);
+      if (_closed.exchange(true, std::memory_order_acq_rel))
+      {
+        return; // Already closed
+      }
     }
 
     // Wake all waiting threads
